@@ -130,13 +130,40 @@ def feasible(pi: PathInfo, folder: Folder, fn: Func, symenv: Dict[str, Any]) -> 
                 seq = folder.fold(node.ast.iter, fn.module, lenv)
                 if known(seq) and isinstance(seq, (tuple, list, str, set, dict)) and len(seq) > 0:
                     return False
-    for test, truth in pi.atoms:
-        v = folder.fold(test, fn.module, symenv)
-        if not known(v):
-            unknown = True
+    # atoms are evaluated where they stand: locals bound earlier on the path (`platform = self.platform`) are folded
+    # under the symbolic environment and shadow nothing that the caller fixed in `symenv`
+    env: Dict[str, Any] = dict(symenv)
+    for node, lab in pi.nodes:
+        st = node.ast
+        if st is None:
             continue
-        if bool(v) != truth:
-            return False
+        if node.kind == "stmt" and isinstance(st, (ast.Assign, ast.AnnAssign)) and getattr(st, "value", None) is not None:
+            tgt = st.targets[0] if isinstance(st, ast.Assign) else st.target
+            if isinstance(tgt, ast.Name) and tgt.id not in symenv:
+                env[tgt.id] = folder.fold(st.value, fn.module, env)
+            elif isinstance(tgt, ast.Tuple) and isinstance(st.value, ast.Tuple) and len(tgt.elts) == len(st.value.elts):
+                vals = [folder.fold(b_, fn.module, env) for b_ in st.value.elts]
+                for a_, v_ in zip(tgt.elts, vals):
+                    if isinstance(a_, ast.Name) and a_.id not in symenv:
+                        env[a_.id] = v_
+            elif isinstance(tgt, (ast.Tuple, ast.List)):
+                for a_ in tgt.elts:
+                    if isinstance(a_, ast.Name) and a_.id not in symenv:
+                        env[a_.id] = UNKNOWN
+        elif node.kind == "for":
+            for a_ in ast.walk(st.target):
+                if isinstance(a_, ast.Name) and a_.id not in symenv:
+                    env[a_.id] = UNKNOWN
+        elif node.kind == "cond" and lab in ("T", "F"):
+            for x in ast.walk(st):
+                if isinstance(x, ast.NamedExpr) and isinstance(x.target, ast.Name) and x.target.id not in symenv:
+                    env[x.target.id] = folder.fold(x.value, fn.module, env)
+            v = folder.fold(st, fn.module, env)
+            if not known(v):
+                unknown = True
+                continue
+            if bool(v) != (lab == "T"):
+                return False
     return None if unknown else True
 
 
